@@ -126,6 +126,27 @@ func c02Scenarios(tier string) []*Scenario {
 			}
 		}
 	}
+	// default (unordered) shutdown with a sibling that is slow to stop (ignores SIGTERM, killed after 3 s): the
+	// processes are stopped one after the other in map order; a may exit by itself while the shutdown is
+	// busy with the sibling
+	for _, pol := range []string{"always", "on_failure"} {
+		for _, bo := range []int{0, 1} {
+			pc := PC{Name: "a", Restart: pol, Backoff: bo}
+			sc := &Scenario{
+				ID:   fmt.Sprintf("c02-slow-sibling-%s-bo%d", pol, bo),
+				YAML: projectYAML(nil, pc, PC{Name: "s", Lines: []string{"shutdown:", "  timeout_seconds: 3"}}),
+				Procs: map[string]*ProcScript{"a": {Launches: append(exits(1), []Action{})}, "s": {OnTerm: "ignore"}},
+				K:          k,
+				TickBudget: 3,
+				MapSites:   []string{"ShutDownProject"},
+			}
+			bothUp := func(w *World) bool { return w.launches["a#0"] > 0 && w.launches["s#0"] > 0 }
+			sc.API = [][]APICall{{{Op: "shutdown", When: bothUp}}}
+			pol, bo := pol, bo
+			sc.Check = func(w *World) []Violation { return c02Check(w, pol, 0, bo, "shutdown") }
+			scs = append(scs, sc)
+		}
+	}
 	return scs
 }
 
